@@ -75,6 +75,9 @@ func Build(t *core.T) *Built {
 	alphabet := []int{2, 3, 5, 9, 16, 32, 64}[s.Pick([]int{1, 1, 2, 2, 2, 2, 1}, "alphabet")]
 	b := &Built{W: qt.NewWorld(s, alphabet)}
 	nAdd := []int{0, 1, 3, 8, 20, 60, 150}[s.Pick([]int{1, 1, 2, 3, 3, 2, 1}, "nadd")]
+	if s.Chance(1, 50, "bigtree") {
+		nAdd = []int{600, 2000}[s.Intn(2, "nbig")] // scale: deep trees, large k, long results
+	}
 	id := 0
 	var removed []*qt.Pt
 	var ops []buildOp
